@@ -40,6 +40,7 @@ def main():
         if cov is not None:
             cov.stop()
             cov.save()
+        common.cleanup_scratch()
         sys.stdout.flush()
         os._exit(code)
     try:
@@ -68,6 +69,7 @@ def main():
                          {'traceback': traceback.format_exception(type(e), e, e.__traceback__)[-8:],
                           'last_sample': (chk.samples[-1] if getattr(chk, 'samples', None) else None)})
                 code = chk.finish()
+                common.cleanup_scratch()
                 sys.stdout.flush()
                 os._exit(int(code or 1))
             except BaseException:
@@ -79,11 +81,13 @@ def main():
                          'the code under test raised %s (%s) at %s on an input the check treats as legal' % (type(e).__name__, str(e)[:160], where),
                          {'traceback': traceback.format_exception(type(e), e, e.__traceback__)[-12:]})
                 code = chk.finish()
+                common.cleanup_scratch()
                 sys.stdout.flush()
                 os._exit(int(code or 1))
             except BaseException:
                 traceback.print_exc()
         print('HARNESS-ERROR property=%s (exit 2, not a violation)' % a.pid)
+        common.cleanup_scratch()
         sys.stdout.flush()
         os._exit(2)
 
